@@ -426,8 +426,11 @@ Section Model.
     if negb (has_descent p0) then mkR false t0 init_state
     else
       let '(s1, t1) := shrink (fuel_of (maxit prm)) init_state (init_step t0) in
-      let '(go, (s2, t2)) := grow (fuel_of (maxit prm)) s1 t1 in
-      if go then do_get a s2 t2 else mkR false t2 s2.
+      (* no valid initial step found: the state is stale (evaluated at the previous trial) -> failure *)
+      if src_ls_stale_guard_f (pv (cur s1)) then mkR false t1 s1
+      else
+        let '(go, (s2, t2)) := grow (fuel_of (maxit prm)) s1 t1 in
+        if go then do_get a s2 t2 else mkR false t2 s2.
 End Model.
 
 (* helpers used by the driver (alg from its C++ type_id rank) *)
